@@ -29,9 +29,10 @@ impl Parser for Go {
                 return Vec::new();
             };
 
-            actual.start += terminator;
+            // `terminator` and `actual` both count from the start of `source`.
+            actual.start = terminator;
 
-            let Some(new_source) = actual.try_get_content(actual_source) else {
+            let Some(new_source) = actual.try_get_content(source) else {
                 return Vec::new();
             };
 
